@@ -17,7 +17,7 @@ RULE = ('enum: every boolean array of length 1..L (L=12 quick, 16 thorough) x ev
         'run kept iff len>=k, idempotent). Non-trivial: the array holds a run >= k and a run < k, or a run '
         'touching an edge that is shorter than k. Distinct = distinct (array, k).')
 REGISTER = True
-TECHNIQUE = 'exhaustive enumeration of all boolean arrays up to a length bound x all k, plus Hypothesis-generated long arrays, against a groupby reference model and direct run predicates; values passed in four memory layouts; arrays returned by earlier calls re-checked after later calls; atheris/libFuzzer part in the thorough tier'
+TECHNIQUE = 'exhaustive enumeration of all boolean arrays up to a length bound x all k, plus every single-run array (run at the start / middle / end, minimum = length, +1, -1, one ulp above / below) up to a larger length bound, plus Hypothesis-generated long arrays, against a groupby reference model and direct run predicates; values passed in four memory layouts; arrays returned by earlier calls re-checked after later calls; atheris/libFuzzer part in the thorough tier'
 LEVEL_TEXT = 'Exhaustive for every array of length <= 12 (quick) / <= 16 (thorough) and every min_n_cycles 0..len+1; random structured search beyond (length <= 400, k <= 50). Complete below the bound, sampling above it.'
 ASSUMPTIONS = ['the input is handed over as a fresh copy (the function works in place; in-place-ness is C15 territory)',
                '1-D numpy bool arrays only (the documented input type), in C-contiguous, reversed-view, strided-view and table-column layouts']
@@ -81,6 +81,12 @@ def check(case, rec):
         k = np.int64(k)
     elif kt == 'frac':                     # a non-integral minimum (check_param_range admits any number in [0, inf])
         k = k + case.get('frac', 0.5)
+    elif kt == 'ulp-above':                # the next float above a whole number: runs of exactly that many cycles are too short
+        k = float(np.nextafter(float(k), np.inf))
+    elif kt == 'ulp-below':                # the next float below: they are long enough
+        k = float(np.nextafter(float(k), 0.0)) if k > 0 else 0.0
+    elif kt == 'rel-above':                # a hair above (relative 3e-6, within a careless isclose tolerance)
+        k = float(k) * (1 + 3e-6) if k > 0 else 1e-9
     elif kt == 'inf-py':
         k = float('inf')
     elif kt == 'inf-np':
@@ -137,6 +143,30 @@ def enum(tier, shard, nshards):
                 yield {'bits': list(bits), 'k': k, 'layout': ['c', 'rev', 'stride', 'col'][(idx + k) % 4] if n <= 10 else 'c'}
 
 
+def enum_single(tier, shard, nshards):
+    """arrays holding exactly one run, at the start / in the middle / at the end, with the minimum equal to, one above and one below
+    its length - for every array length up to a bound (counts reconstructed from means or sums go wrong at particular lengths),
+    plus a few runs of about 2e5 cycles with the minimum one above / one below"""
+    N = 160 if tier == 'quick' else 420
+    idx = 0
+    for n in range(1, N + 1):
+        for r in range(1, n + 1):
+            idx += 1
+            if idx % nshards != shard:
+                continue
+            for pos in (0, (n - r) // 2, n - r):
+                if pos == (n - r) // 2 and pos in (0, n - r) and n != r:
+                    continue
+                runs = ([pos] if pos else []) + [r] + ([n - r - pos] if n - r - pos else [])
+                for k in (r, r + 1, r - 1):
+                    yield {'runs': runs, 'first': pos == 0, 'k': k, 'ktype': ['int', 'float', 'ulp-above', 'ulp-below', 'rel-above'][(idx + k) % 5], 'layout': 'c'}
+    for j, r in enumerate([99999, 100001, 199999, 262144]):
+        if j % nshards != shard:
+            continue
+        for k, kt in ((r + 1, 'int'), (r, 'int'), (r, 'ulp-above'), (r + 2, 'float')):
+            yield {'runs': [7, r, 11, 3, 5], 'first': False, 'k': k, 'ktype': kt, 'layout': 'c'}
+
+
 def strategy(tier):
     @st.composite
     def s(draw):
@@ -153,7 +183,7 @@ def strategy(tier):
             v = not v
         bits = bits[:400]
         k = draw(st.one_of(st.integers(0, 50), st.sampled_from(sorted(set(runs))), st.sampled_from(sorted(set(r + 1 for r in runs)))))
-        ktype = draw(st.sampled_from(['int', 'int', 'float', 'npint', 'frac', 'frac', 'inf-py', 'inf-np']))
+        ktype = draw(st.sampled_from(['int', 'int', 'float', 'npint', 'frac', 'frac', 'inf-py', 'inf-np', 'ulp-above', 'ulp-below', 'rel-above']))
         return {'bits': bits, 'k': k, 'ktype': ktype, 'frac': draw(st.sampled_from([0.25, 0.5, 0.99])), 'layout': draw(st.sampled_from(['c', 'c', 'rev', 'stride', 'col']))}
     return s()
 
@@ -168,6 +198,8 @@ def decode(fdp):
 PARTS = [
     Part('exhaustive', check, enum=enum, shards={'quick': 8, 'thorough': 16}, exhaustive=True,
          time_cap={'quick': 120, 'thorough': 1800}),
+    Part('single-run', check, enum=enum_single, shards={'quick': 8, 'thorough': 16}, exhaustive=True,
+         time_cap={'quick': 150, 'thorough': 1800}),
     Part('long-arrays', check, strategy=strategy, budget={'quick': 2000, 'thorough': 60000},
          shards={'quick': 4, 'thorough': 16}),
     Part('fuzz-atheris', check, decode=decode, budget={'quick': 0, 'thorough': 3000000}, shards={'quick': 1, 'thorough': 12},
